@@ -42,7 +42,7 @@ def _variant(rng, title, how):
     if how == "embedded":
         return (t[:2] + " " + t[2:])[:16]
     if how == "prefix":
-        return t[:-1]
+        return t[:-1] or "OTHER"  # an empty title cannot be put on the wire
     if how == "suffix":
         return (t + "X")[:16]
     return "OTHER"
